@@ -470,11 +470,7 @@ class SStr(str):
                 if i == n:
                     break
                 if maxsplit >= 0 and len(out) >= maxsplit:
-                    # remainder, with trailing whitespace stripped
-                    j = n
-                    while j > i and truth(cp_pred(s[j - 1], "isspace")):
-                        j -= 1
-                    out.append(S(s[i:j]))
+                    out.append(S(s[i:]))      # the remainder keeps its trailing whitespace
                     return out
                 j = i
                 while j < n and not truth(cp_pred(s[j], "isspace")):
@@ -514,10 +510,7 @@ class SStr(str):
                 if j == 0:
                     break
                 if len(out) >= maxsplit:
-                    i = 0
-                    while i < j and truth(cp_pred(s[i], "isspace")):
-                        i += 1
-                    out.append(S(s[i:j]))
+                    out.append(S(s[:j]))      # the remainder keeps its leading whitespace
                     break
                 i = j
                 while i > 0 and not truth(cp_pred(s[i - 1], "isspace")):
